@@ -77,6 +77,24 @@ def oracle(case, obs):
                 tok_tags[e[2]] = prev[4]
         if op["op"] == "sinkfail":
             failed_refs |= {ref_of_tag.get(t) for t in tok_tags.get(op["tok"], []) if ref_of_tag.get(t)}
+    # a failing awaitable consumer: the awaitable of the emission that started it must carry the exception
+    if case["mode"] == "async" and obs and not any(op["op"] == "multi" for op in case["ops"]):
+        started_in = {}      # tok -> index (among the emit operations) of the emission during which the consumer was started
+        n_emit = 0
+        for op, o in zip(case["ops"], obs):
+            if op["op"] == "emit":
+                for e in o["log"]:
+                    if e[0] == "start":
+                        started_in[e[2]] = n_emit
+                n_emit += 1
+        final = obs[-1].get("emits") or []
+        for k, (op, o) in enumerate(zip(case["ops"], obs)):
+            if op["op"] == "sinkfail" and op["tok"] in started_in and not (o.get("err") or "").startswith("invalid-op"):
+                idx = started_in[op["tok"]]
+                if idx < len(final) and final[idx] == "done":
+                    problems.append(("exception-swallowed", "op %d %r: the awaitable consumer started by emit #%d failed, but the awaitable of that emit "
+                                     "completed normally (emit statuses at the end: %r)" % (k, op, idx, final)))
+                    break
     for k, r in fired:
         if r in failed_refs:
             problems.append(("failed-callback", "op %d: completion callback of ref %d fired although the processing of its element raised" % (k, r)))
@@ -97,6 +115,15 @@ def oracle(case, obs):
 
 
 CORPUS = [
+    # a one-to-many node in front of awaitable consumers: the failure of the consumer of a NON-last piece must reach the emitter
+    {"mode": "async", "flavour": "coro", "nodes": [{"kind": "source", "ups": []}, {"kind": "map", "f": ["rep", 3], "ups": [0]}, {"kind": "flatten", "ups": [1]},
+                                                    {"kind": "sink", "mode": "async", "ups": [2]}],
+     "ops": [{"op": "emit", "node": 0, "val": 1, "md": [{"tag": 1, "ref": 1}]}, {"op": "sinkfail", "tok": 0}, {"op": "sinkdone", "tok": 1}, {"op": "sinkdone", "tok": 2},
+             {"op": "emit", "node": 0, "val": 2, "md": [{"tag": 2, "ref": 2}]}, {"op": "sinkdone", "tok": 3}, {"op": "sinkfail", "tok": 4}, {"op": "sinkdone", "tok": 5}]},
+    {"mode": "async", "flavour": "future", "nodes": [{"kind": "source", "ups": []}, {"kind": "map", "f": ["pair"], "ups": [0]}, {"kind": "flatten", "ups": [1]},
+                                                      {"kind": "map", "f": ["inc"], "ups": [2]}, {"kind": "sink", "mode": "async", "ups": [3]}, {"kind": "sink", "mode": "async", "ups": [2]}],
+     "ops": [{"op": "emit", "node": 0, "val": 5, "md": [{"tag": 1, "ref": 1}]}, {"op": "sinkdone", "tok": 3}, {"op": "sinkdone", "tok": 2}, {"op": "sinkfail", "tok": 1},
+             {"op": "sinkdone", "tok": 0}]},
     {"mode": "sync", "nodes": [{"kind": "source", "ups": []},
                                {"kind": "accumulate", "ups": [0], "f": ["failAdd", 3, 1], "has_start": False, "start": None, "returns_state": False, "with_state": False},
                                {"kind": "sink", "mode": "sync", "f": ["id"], "ups": [1]}],
@@ -245,6 +272,71 @@ def dataframe_fault_sample(ctx, n):
                         "from those of a pipeline that never saw the failing frame" % (name, errs[k]), case)
 
 
+def textfile_sink_sample(ctx, n):
+    """sink_to_textfile is a sink whose 'user function' is the file's write(): elements that are not str, a file closed under the
+    pipeline, a file-like whose write() raises.  Every failure must be raised by emit, the element's counter must not fire, the
+    elements before and after must be in the file exactly once."""
+    import io
+    from streamz import Stream
+    from streamz.core import RefCounter
+
+    class Flaky(io.StringIO):
+        def __init__(self, bad):
+            super().__init__()
+            self.bad, self.calls = bad, 0
+
+        def write(self, text):
+            self.calls += 1
+            if self.calls in self.bad:
+                raise OSError("disk full")
+            return super().write(text)
+
+    rng = ctx.rng
+    for i in range(n):
+        items = [rng.choice(["a", "bb", "", "c d", 7, None, "e"]) for _ in range(rng.randint(3, 8))]
+        close_at = rng.choice([None, None, rng.randrange(len(items))])
+        bad = {k for k in range(1, len(items) + 1) if rng.random() < 0.2}
+        case = {"textfile_sink": True, "items": items, "close_at": close_at, "bad_writes": sorted(bad), "via_map": rng.random() < 0.5}
+        fobj = Flaky(bad)
+        src = Stream()
+        node = src.map(lambda x: x) if case["via_map"] else src
+        snk = node.sink_to_textfile(fobj)
+        fired, outcomes, expect = [], [], []
+        closed = False
+        for k, x in enumerate(items):
+            if close_at == k:
+                fobj.close()
+                closed = True
+            rc = RefCounter(cb=lambda k=k: fired.append(k), loop=graphlib.ImmediateLoop())     # the callback runs inside release()
+            will_fail = closed or not isinstance(x, str) or (not closed and (fobj.calls + 1) in bad)
+            try:
+                src.emit(x, metadata=[{"ref": rc}])
+                outcomes.append("ok")
+            except Exception as e:      # noqa: BLE001
+                outcomes.append(type(e).__name__)
+            if not will_fail:
+                expect.append(x)
+            if (outcomes[-1] == "ok") == will_fail:
+                ctx.failure("textfile-sink:" + ("exception-swallowed" if will_fail else "spurious-exception"),
+                            "sink_to_textfile: element %d (%r) of %r %s: emit outcome %r" % (
+                                k, x, items, "could not be written (file closed / not a str / write() raised)" if will_fail else "is writable", outcomes[-1]),
+                            case, oracle="a failing sink raises in emit; nothing else does")
+                break
+            if (k in fired) == will_fail:
+                ctx.failure("textfile-sink:" + ("failed-callback" if will_fail else "callback-missing"),
+                            "sink_to_textfile: element %d (%r): completion callback fired=%r although %s" % (
+                                k, x, k in fired, "its write failed" if will_fail else "it was written"), case)
+                break
+        else:
+            if not closed:
+                text = fobj.getvalue()
+                if text != "".join(e + "\n" for e in expect):
+                    ctx.failure("textfile-sink:contents", "file holds %r, written successfully were %r" % (text, expect), case)
+        ctx.case(case, nontrivial=any(o != "ok" for o in outcomes) and any(o == "ok" for o in outcomes))
+        ctx.count("textfile-sink")
+        snk.destroy()
+
+
 def flush(ctx, batch):
     """Model comparison + oracles for a chunk of cases (chunked to keep memory bounded in the thorough tier)."""
     from .. import common
@@ -264,6 +356,7 @@ def run(ctx):
     ctx.audit()
     threaded_sample(ctx, 12 if not ctx.thorough() else 60)
     dataframe_fault_sample(ctx, 44 if not ctx.thorough() else 660)
+    textfile_sink_sample(ctx, 40 if not ctx.thorough() else 600)
     rng = ctx.rng
     n = 300 if not ctx.thorough() else 10000
     batch = []
@@ -303,6 +396,10 @@ def replay(ctx, data):
     if case.get("threaded"):
         threaded_sample(ctx, 12)
         ctx.coverage["rule"] = "replay: threaded sample"
+        return
+    if case.get("textfile_sink"):
+        textfile_sink_sample(ctx, 40)
+        ctx.coverage["rule"] = "replay: textfile sink sample"
         return
     if case.get("dataframe"):
         dataframe_fault_sample(ctx, 44)
